@@ -392,6 +392,7 @@ pub fn c04_histories(out: &str, thorough: bool, seed: u64) {
 /// crystal family of its group - for hard and LJ states.
 pub fn offered_group_cells(seed: u64, failures: &mut Vec<Value>, worst_out: &mut f64) -> usize {
     use nalgebra::Matrix3;
+    use packing::traits::State;
     use packing::{LJShape2, LineShape, PackedState, PotentialState};
     let mut worst = *worst_out;
     let mut offered = 0usize;
@@ -403,11 +404,21 @@ pub fn offered_group_cells(seed: u64, failures: &mut Vec<Value>, worst_out: &mut
         for variant in 0..4u64 {
             let mut b = packing::BuildOptimiser::default();
             b.seed(seed * 10 + variant).steps(400).inner_steps(100).kt_start(0.2).kt_ratio(Some(0.3)).max_step_size(0.2);
-            let j = if variant % 2 == 0 {
-                PackedState::from_group(LineShape::polygon(3 + variant as usize).unwrap(), &wg).ok().and_then(|st| serde_json::to_value(&b.build().optimise_state(st)).ok())
-            } else {
-                PotentialState::from_group(LJShape2::from_trimer(0.637556, 120., 1.), &wg).ok().and_then(|st| serde_json::to_value(&b.build().optimise_state(st)).ok())
-            };
+            // a group may start its site on one of its own mirror lines (no score): nothing to optimise
+            let j = std::panic::catch_unwind(std::panic::AssertUnwindSafe(|| {
+                if variant % 2 == 0 {
+                    PackedState::from_group(LineShape::polygon(3 + variant as usize).unwrap(), &wg)
+                        .ok()
+                        .filter(|st| st.score().is_some())
+                        .and_then(|st| serde_json::to_value(&b.build().optimise_state(st)).ok())
+                } else {
+                    PotentialState::from_group(LJShape2::from_trimer(0.637556, 120., 1.), &wg)
+                        .ok()
+                        .filter(|st| st.score().is_some())
+                        .and_then(|st| serde_json::to_value(&b.build().optimise_state(st)).ok())
+                }
+            }))
+            .unwrap_or(None);
             let j = match j {
                 Some(j) => j,
                 None => continue,
